@@ -380,7 +380,11 @@ class InProtocolBase(ProtocolMixin):
         if isinstance(string, (six.text_type, six.binary_type)) and \
                                     cls_attrs.max_str_len is not None and \
                                     len(string) > cls_attrs.max_str_len:
-            raise ValidationError(string,
+            # redundant leading zeros are valid and do not count: max_str_len
+            # is one character for the sign plus the significant digits.
+            zeros = b'+-0' if isinstance(string, six.binary_type) else u'+-0'
+            if len(string.lstrip(zeros)) > cls_attrs.max_str_len - 1:
+                raise ValidationError(string,
                                          "Integer %%r longer than %d characters"
                                                         % cls_attrs.max_str_len)
 
